@@ -104,8 +104,171 @@ theorem writeablePoll_fr {r : AReq} {started : Bool} {m : MutexSt} {t : Transpor
     | false =>
       simp only [Bool.false_eq_true, if_false] at hp
       cases hs : r.sp.setStream (inputStreams r.sp.request.role).getLast? with
-      | ok sp' => simp only [hs] at hp; exact key _ hc hp
+      | ok sp' => simp only [hs] at hp; exact key { r with sp := sp' } hc hp
       | rejected => simp only [hs] at hp; cases hp; exact Fr.refl _ _
       | panic s => simp only [hs] at hp; cases hp; exact Fr.refl _ _
+
+/-- `HI` together with `Own` -/
+def HP (sp0 : Str.Parser) (wl0 : Bytes) (script0 : List HOp) (r : AReq) (ws : List (Option Writer))
+    (e : Run.Env) : Prop := HI sp0 wl0 script0 r ws e ∧ Own ws e.mutex
+
+variable {sp0 : Str.Parser} {wl0 : Bytes} {script0 : List HOp}
+
+theorem HP.ev {r : AReq} {ws : List (Option Writer)} {e : Run.Env} (h : HP sp0 wl0 script0 r ws e) (s : String) :
+    HP sp0 wl0 script0 r ws (e.ev s) := ⟨h.1.ev s, h.2⟩
+
+theorem HP.pollInput {r : AReq} {ws : List (Option Writer)} {e : Run.Env} (h : HP sp0 wl0 script0 r ws e)
+    {dest : Option Nat} {r' : AReq} {m' : MutexSt} {t' : Transport} {res : IRes}
+    (hp : r.pollInput dest e.mutex e.tr = (r', m', t', res)) :
+    HP sp0 wl0 script0 r' ws { e with mutex := m', tr := t' } :=
+  ⟨h.1.pollInput hp, h.2.fr0 (pollInput_fr h.1.linv.1 hp)⟩
+
+theorem HP.writeablePoll {r : AReq} {ws : List (Option Writer)} {e : Run.Env} (h : HP sp0 wl0 script0 r ws e)
+    (hnp : ¬ Plain script0) {started : Bool} {r' : AReq} {b : Bool} {m' : MutexSt} {t' : Transport} {res : ORes}
+    (hp : r.writeablePoll started e.mutex e.tr = (r', b, m', t', res)) :
+    HP sp0 wl0 script0 r' ws { e with mutex := m', tr := t' } :=
+  ⟨h.1.writeablePoll hnp hp, h.2.fr0 (writeablePoll_fr h.1.linv.1 hp)⟩
+
+theorem HP.writer {r : AReq} {ws : List (Option Writer)} {e : Run.Env} (h : HP sp0 wl0 script0 r ws e)
+    {i : Nat} {w w' : Writer} (hw : ws[i]? = some (some w)) {m' : MutexSt} {t' : Transport} {done : Prop}
+    (hown : OwnPost (i + 1) e.mutex e.tr w'.lock m' t' done) :
+    HP sp0 wl0 script0 r (ws.set i (some w')) { e with mutex := m', tr := t' } :=
+  ⟨h.1.writer hw hown, h.2.writer hw hown.2.1⟩
+
+/-- **`Own` (with `HI`) is an invariant of `handlerPoll`.** -/
+theorem handlerPoll_hp : ∀ (fuel : Nat) (r : AReq) (h : HState) (e : Run.Env),
+    HP sp0 wl0 script0 r h.writers e → h.ops <:+ script0 →
+    Own (handlerPoll fuel r h e).2.1.writers (handlerPoll fuel r h e).2.2.1.mutex := by
+  intro fuel
+  induction fuel with
+  | zero => intro r h e hi hs; exact hi.2
+  | succ n ih =>
+    intro r h e hi hsuf
+    rcases hops : h.ops with _ | ⟨op, rest⟩
+    · simp only [handlerPoll, hops]; exact hi.2
+    · have hsuf' : rest <:+ script0 := by
+        rw [hops] at hsuf; exact (List.suffix_cons op rest).trans hsuf
+      have hmem : op ∈ script0 := by
+        rw [hops] at hsuf; exact hsuf.subset List.mem_cons_self
+      have hsufc : (op :: rest) <:+ script0 := by rw [hops] at hsuf; exact hsuf
+      have NEXT : ∀ (r1 : AReq) (h1 : HState) (e1 : Run.Env), HP sp0 wl0 script0 r1 h1.writers e1 →
+          Own (handlerPoll n r1 { h1 with ops := rest, sub := .fresh } e1).2.1.writers
+            (handlerPoll n r1 { h1 with ops := rest, sub := .fresh } e1).2.2.1.mutex :=
+        fun r1 h1 e1 h1i => ih r1 _ e1 h1i hsuf'
+      have FAIL : ∀ (r1 : AReq) (h1 : HState) (e1 : Run.Env) (err : IoErr), HP sp0 wl0 script0 r1 h1.writers e1 →
+          Own (if h1.propagate then
+            (r1, { h1 with ops := rest, sub := .fresh }, e1, HRes.done (.error err))
+            else handlerPoll n r1 { h1 with ops := rest, sub := .fresh } e1).2.1.writers
+            (if h1.propagate then
+            (r1, { h1 with ops := rest, sub := .fresh }, e1, HRes.done (.error err))
+            else handlerPoll n r1 { h1 with ops := rest, sub := .fresh } e1).2.2.1.mutex := by
+        intro r1 h1 e1 err h1i
+        split
+        · exact h1i.2
+        · exact NEXT r1 h1 e1 h1i
+      cases op with
+      | ret st => simp only [handlerPoll, hops]; exact hi.2
+      | retErr err => simp only [handlerPoll, hops]; exact hi.2
+      | read k =>
+        simp only [handlerPoll, hops]
+        rcases hpi : r.pollInput (some k) e.mutex e.tr with ⟨r1, m1, t1, res⟩
+        have h1 := hi.pollInput hpi
+        cases res with
+        | pending => exact h1.2
+        | ready a d => exact NEXT _ h _ (h1.ev _)
+        | err x => exact FAIL _ h _ _ (h1.ev _)
+        | panic s => exact h1.2
+      | readAll =>
+        simp only [handlerPoll, hops]
+        rcases hpi : r.pollInput (some 64) e.mutex e.tr with ⟨r1, m1, t1, res⟩
+        have h1 := hi.pollInput hpi
+        cases res with
+        | pending => exact h1.2
+        | ready a d =>
+          cases a with
+          | zero => exact NEXT _ h _ (h1.ev _)
+          | succ a' => exact ih _ _ _ h1 (by first | exact hsuf | exact hsufc)
+        | err x => exact FAIL _ h _ _ (h1.ev _)
+        | panic s => exact h1.2
+      | fill =>
+        simp only [handlerPoll, hops]
+        rcases hpi : r.pollInput none e.mutex e.tr with ⟨r1, m1, t1, res⟩
+        have h1 := hi.pollInput hpi
+        cases res with
+        | pending => exact h1.2
+        | ready a d => exact NEXT _ h _ (h1.ev _)
+        | err x => exact FAIL _ h _ _ (h1.ev _)
+        | panic s => exact h1.2
+      | consume k =>
+        simp only [handlerPoll, hops]
+        exact NEXT _ h _ ⟨hi.1.consume k, hi.2⟩
+      | setStream t =>
+        have hnp : ¬ Plain script0 := fun hP => by have := hP _ hmem; cases this
+        simp only [handlerPoll, hops]
+        cases hs : r.setStream t with
+        | none => exact hi.2
+        | some r' =>
+          obtain ⟨sp', hsp, rfl⟩ := (setStream_some_iff r t r').mp hs
+          exact NEXT _ h _ (HP.ev ⟨hi.1.setStream hsp hnp, hi.2⟩ _)
+      | writeable =>
+        have hnp : ¬ Plain script0 := fun hP => by have := hP _ hmem; cases this
+        simp only [handlerPoll, hops]
+        rcases hwp : r.writeablePoll (h.sub == .writeableStarted) e.mutex e.tr with ⟨r1, b1, m1, t1, res⟩
+        have h1 := hi.writeablePoll hnp hwp
+        cases res with
+        | pending => exact h1.2
+        | ready => exact NEXT _ h _ (h1.ev _)
+        | err x => exact FAIL _ h _ _ (h1.ev _)
+        | panic s => exact h1.2
+      | open_ t =>
+        simp only [handlerPoll, hops]
+        split
+        · exact hi.2
+        · exact NEXT _ { h with writers := h.writers ++ [some { rtype := t, id := r.sp.request.id }] } _
+            (HP.ev ⟨hi.1.open_ _ rfl, hi.2.open_ _⟩ _)
+      | dropW i =>
+        simp only [handlerPoll, hops]
+        cases hw : h.writers.getD i none with
+        | none => exact NEXT _ h _ hi
+        | some w =>
+          exact NEXT _ { h with writers := h.writers.set i none } _
+            ⟨hi.1.dropW (getD_some hw), hi.2.dropW (hi.1.wcons i w (getD_some hw))⟩
+      | writeAll i data =>
+        simp only [handlerPoll, hops]
+        cases hw : h.writers.getD i none with
+        | none => exact NEXT _ h _ (hi.ev _)
+        | some w =>
+          simp only []
+          cases hsub : h.sub <;> simp only [] <;>
+          (split
+           · exact NEXT _ h _ (hi.ev _)
+           · rename_i hemp
+             rcases hpw : w.pollWrite i _ e.mutex e.tr with ⟨w1, m1, t1, res⟩
+             have hown := (pollWrite_own w i _ e.mutex e.tr (hi.1.wcons i w (getD_some hw)) hpw).1
+             have h1 := hi.writer (getD_some hw) hown
+             cases res with
+             | pending => simp only []; exact h1.2
+             | ready k =>
+               cases k with
+               | zero => simp only []; exact FAIL _ { h with writers := h.writers.set i (some w1) } _ _ (h1.ev _)
+               | succ k' =>
+                 simp only []
+                 exact ih _ _ _ h1 (by first | exact hsuf | exact hsufc)
+             | err x => simp only []; exact FAIL _ { h with writers := h.writers.set i (some w1) } _ _ (h1.ev _)
+             | panic s => simp only []; exact h1.2)
+      | flush i =>
+        simp only [handlerPoll, hops]
+        cases hw : h.writers.getD i none with
+        | none => exact NEXT _ h _ (hi.ev _)
+        | some w =>
+          simp only []
+          rcases hpf : w.pollFlush i e.mutex e.tr with ⟨w1, m1, t1, res⟩
+          have hown := (pollFlush_own w i e.mutex e.tr (hi.1.wcons i w (getD_some hw)) hpf).1
+          have h1 := hi.writer (getD_some hw) hown
+          cases res with
+          | pending => simp only []; exact h1.2
+          | ready k => simp only []; exact NEXT _ { h with writers := h.writers.set i (some w1) } _ (h1.ev _)
+          | err x => simp only []; exact FAIL _ { h with writers := h.writers.set i (some w1) } _ _ (h1.ev _)
+          | panic s => simp only []; exact h1.2
 
 end Fcgi.C08R
